@@ -93,3 +93,13 @@ func VerifMemmapHook(record func(base uintptr, n int)) {
 		return d, err
 	}
 }
+
+// VerifForeignHandle opens an independent mapping of the file that v currently
+// uses (same name and metadata): another process sharing the counter file.
+func VerifForeignHandle(v *VerifFile) (*VerifHandle, error) {
+	m := v.f.current.Peek()
+	if m == nil {
+		return nil, errCorrupt
+	}
+	return VerifOpenHandle(m.f.Name(), m.meta)
+}
